@@ -338,8 +338,11 @@ func (s *IndexedState) add(ctx *Context, id string, x Map) (string, []byte, erro
 	var oldRule Map
 	if old, have := s.IdToFact[id]; have {
 		if oldRule, _ = ExtractRule(ctx, old, false); oldRule != nil {
-			if err = s.unindexRule(ctx, id, oldRule); err != nil {
-				return "", nil, err
+			// (Only a rule without a schedule is in the index.)
+			if _, scheduled := oldRule["schedule"]; !scheduled {
+				if err = s.unindexRule(ctx, id, oldRule); err != nil {
+					return "", nil, err
+				}
 			}
 		}
 	}
@@ -508,8 +511,12 @@ func (s *IndexedState) rem(ctx *Context, id string) (bool, error) {
 		}
 
 		if rule != nil {
-			if err := s.unindexRule(ctx, id, rule); err != nil {
-				return false, err
+			// (A rule with a schedule was never put into the rule
+			// index: see add.)
+			if _, scheduled := rule["schedule"]; !scheduled {
+				if err := s.unindexRule(ctx, id, rule); err != nil {
+					return false, err
+				}
 			}
 		}
 
